@@ -23,6 +23,31 @@ class StopRequest(Exception):
   """Exception handed to maybe_stop(exc)."""
 
 
+def fault_exception(kind, text):
+  """The exception a failing producer raises (fault['exc'], default InjectedError)."""
+  if kind in (None, 'InjectedError'):
+    return InjectedError(text)
+  if kind == 'Empty':
+    return _queue.Empty(text)
+  if kind == 'QueueEmpty':
+    return asyncio.QueueEmpty(text)
+  if kind == 'Full':
+    return _queue.Full(text)
+  return {'TimeoutError': TimeoutError, 'KeyError': KeyError, 'ValueError': ValueError,
+          'RuntimeError': RuntimeError, 'IndexError': IndexError}[kind](text)
+
+
+class FailingIterable:
+  """An iterable whose __iter__ raises (a lazily opened source that cannot be opened)."""
+
+  def __init__(self, exc, log, p):
+    self._exc, self._log, self._p = exc, log, p
+
+  def __iter__(self):
+    self._log.append(('fail', self._p, -1))
+    raise self._exc
+
+
 _patched = False
 
 
@@ -99,19 +124,24 @@ def run_queue_case(case, watchdog_s=20.0):
     for i in range(n):
       if fault and fault['p'] == p and fault['at'] == i:
         log.append(('fail', p, i))
-        raise InjectedError(f'p{p}@{i}')
+        raise fault_exception(fault.get('exc'), f'p{p}@{i}')
       log.append(('produce', p, i))
       state['produced'] += 1
       core.ACTIVE.yield_point('user-gen')
       yield (p, i)
     if fault and fault['p'] == p and fault['at'] == n:
       log.append(('fail', p, n))
-      raise InjectedError(f'p{p}@{n}')
+      raise fault_exception(fault.get('exc'), f'p{p}@{n}')
     return f'r{p}'
+
+  def source(p):
+    if fault and fault['p'] == p and fault['at'] == -1:
+      return FailingIterable(fault_exception(fault.get('exc'), f'p{p}@iter'), log, p)
+    return gen(p)
 
   def producer(p):
     try:
-      q.enqueue_from_iterator(gen(p))
+      q.enqueue_from_iterator(source(p))
       log.append(('prod_return', p))
     except core.SchedAbort:
       raise
@@ -145,6 +175,7 @@ def run_queue_case(case, watchdog_s=20.0):
           return
         ops += 1
         m = mode
+        was_exhausted = q.exhausted
         if mode == 'mixed':
           m = rnd.choice(['get', 'batch_nb:2', 'batch_b:2', 'batch0'])
         if m == 'get':
@@ -172,6 +203,11 @@ def run_queue_case(case, watchdog_s=20.0):
           vals = [next(it)]
         else:
           raise ValueError(m)
+        if not vals and was_exhausted and m != 'nowait':
+          # Once the queue is exhausted every dequeue call ends the stream (or
+          # raises the recorded exception); an empty batch is neither.
+          log.append(('end', c, 'exc', 'EmptyBatchAfterExhausted', m))
+          return
         for v in vals:
           log.append(('recv', c, v[0], v[1]))
         check_invariants(f'c{c}')
@@ -271,7 +307,8 @@ def analyse(case, sched, log):
         pass
       elif e[2] == 'stop':
         out.append(('clean_end_after_failure', {'consumer': c}))
-      elif e[3] != 'InjectedError':
+      elif e[3] != {None: 'InjectedError', 'QueueEmpty': 'QueueEmpty'}.get(
+          fault.get('exc'), fault.get('exc')):
         out.append(('wrong_exception', e[1:]))
     for p in range(P):
       ended = [e for e in log if e[0] in ('prod_return', 'prod_raise') and e[1] == p]
